@@ -247,8 +247,11 @@ void  XMLBigDecimal::parseDecimal(const XMLCh* const toParse
     }
 
     // Strip leading zeros
+    const XMLCh* const digitsStart = startPtr;
     while (*startPtr == chDigit_0)
         startPtr++;
+    // a decimal needs at least one digit: remember whether a zero was seen
+    bool digitFound = (startPtr != digitsStart);
 
     // containning zero, only zero, nothing but zero
     // it is a zero, indeed
@@ -284,7 +287,12 @@ void  XMLBigDecimal::parseDecimal(const XMLCh* const toParse
         // copy over
         *retPtr++ = *startPtr++;
         totalDigits++;
+        digitFound = true;
     }
+
+    // "." , "+." and "-." are not in the lexical space of decimal
+    if (!digitFound)
+        ThrowXMLwithMemMgr(NumberFormatException, XMLExcepts::XMLNUM_Inv_chars, manager);
 
     /***
     E2-44 totalDigits
@@ -348,8 +356,11 @@ void  XMLBigDecimal::parseDecimal(const XMLCh*         const toParse
     }
 
     // Strip leading zeros
+    const XMLCh* const digitsStart = startPtr;
     while (*startPtr == chDigit_0)
         startPtr++;
+    // a decimal needs at least one digit: remember whether a zero was seen
+    bool digitFound = (startPtr != digitsStart);
 
     // containning zero, only zero, nothing but zero
     // it is a zero, indeed
@@ -379,8 +390,13 @@ void  XMLBigDecimal::parseDecimal(const XMLCh*         const toParse
             ThrowXMLwithMemMgr(NumberFormatException, XMLExcepts::XMLNUM_Inv_chars, manager);
 
         startPtr++;
+        digitFound = true;
 
     }
+
+    // "." , "+." and "-." are not in the lexical space of decimal
+    if (!digitFound)
+        ThrowXMLwithMemMgr(NumberFormatException, XMLExcepts::XMLNUM_Inv_chars, manager);
 
     return;
 }
